@@ -63,8 +63,9 @@ rc, o = sh(f'git apply {patch}', cwd=f'{S}/repo')
 if rc != 0:
     meta['error'] = 'patch does not apply to current /repo HEAD: ' + o[-500:]
 # private engine copy with path dependencies re-pointed
-sh(f'rm -rf {S}/engine && mkdir -p {S}/engine && cp -r /verif/engine/minilua /verif/engine/syltmc /verif/engine/Cargo.toml /verif/engine/Cargo.lock {S}/engine/ && mkdir -p {S}/engine/.cargo')
-sh(f"sed -i 's#/repo/#{S}/repo/#g' {S}/engine/syltmc/Cargo.toml")
+# rsync keeps mtimes, so cargo only rebuilds what changed
+sh(f'mkdir -p {S}/engine/.cargo && rsync -a --delete --exclude .cargo --exclude syltmc/Cargo.toml /verif/engine/minilua /verif/engine/syltmc /verif/engine/Cargo.toml /verif/engine/Cargo.lock {S}/engine/')
+sh(f"sed 's#/repo/#{S}/repo/#g' /verif/engine/syltmc/Cargo.toml > {S}/engine/syltmc/Cargo.toml.new && (cmp -s {S}/engine/syltmc/Cargo.toml.new {S}/engine/syltmc/Cargo.toml || mv {S}/engine/syltmc/Cargo.toml.new {S}/engine/syltmc/Cargo.toml); rm -f {S}/engine/syltmc/Cargo.toml.new")
 open(f'{S}/engine/.cargo/config.toml', 'w').write(f'[net]\noffline = true\n[build]\ntarget-dir = "{S}/target"\n')
 # hard-coded source paths of corpus files stay on /repo (identical content unless the patch edits tests/std)
 rc, o = sh('cargo build --release --offline 2>&1 | tail -5', cwd=f'{S}/engine', timeout=3600)
